@@ -313,14 +313,17 @@ def normalize_hostname_impl(h, normalize_amp=True):
     return lib.guarded(normalize_hostname, h, normalize_amp=normalize_amp)
 
 
-def _host_of(url, infer):
-    """(string the helper parses, its hostname or None)"""
+def _host_of(url, infer, lower=False):
+    """(string the helper parses, its hostname or None); `lower`: get_fingerprinted_hostname
+    lower-cases the url first"""
     from ural.ensure_protocol import ensure_protocol
     from ural.infer_redirection import infer_redirection as resolve
     from urllib.parse import urlsplit
 
     from ural.patterns import CONTROL_CHARS_RE
 
+    if lower:
+        url = url.lower()
     u = resolve(url) if infer else url
     s = ensure_protocol(CONTROL_CHARS_RE.sub("", u).strip())
     try:
@@ -370,7 +373,7 @@ def get_fingerprinted_hostname_op(url, infer_redirection=True, strip_suffix=Fals
     from ural.normalize_url import normalize_hostname
     from ural.fingerprint_url import strip_lang_subdomains_from_hostname
 
-    s, h = _host_of(url, infer_redirection)
+    s, h = _host_of(url, infer_redirection, lower=True)
     line = {"f": "get_fingerprinted_hostname", "url": url, "infer_redirection": infer_redirection,
             "strip_suffix": strip_suffix, "host": h, "puny": _host_puny(h or ""), "walk": {}}
     if strip_suffix:
@@ -388,7 +391,7 @@ def get_fingerprinted_hostname_impl(url, infer_redirection=True, strip_suffix=Fa
     from ural.fingerprint_url import get_fingerprinted_hostname
 
     def run():
-        s, _ = _host_of(url, infer_redirection)
+        s, _ = _host_of(url, infer_redirection, lower=True)
         return [s, get_fingerprinted_hostname(url, infer_redirection=infer_redirection, strip_suffix=strip_suffix)]
 
     return lib.guarded(run)
